@@ -722,6 +722,104 @@ def guard_for_bounds(E, body, site):
     return None
 
 
+def guard_option_just_filled(body, site):
+    """`if p.is_none() { p = Some(..) }  match p { Some(x) => .., None => unreachable!() }`: the panic sits on the None arm
+    of a match on an Option place that every path has just made Some."""
+    from lib import exclusive_region
+    for sb in sorted(body.reachable()):
+        info = body.switch_info(sb)
+        if not info or not info[3] or set(info[3].values()) != {"None", "Some"} or not body.dominates(sb, site.bb):
+            continue
+        none_t = [info[1].get(v, info[2]) for v, n in info[3].items() if n == "None"]
+        if not none_t or none_t[0] is None or not (site.bb == none_t[0] or body.dominates(none_t[0], site.bb)):
+            continue
+        subj = strip_refs(info[0][1]) if info[0][0] == "discr" else None
+        if subj is None or subj[0] != "place" or not subj[2]:
+            continue
+        field = subj[2][-1]
+        # the filling `if`
+        for gb in sorted(body.reachable()):
+            if gb == sb or not body.dominates(gb, sb):
+                continue
+            t = body.term(gb)
+            if t["k"] != "switch":
+                continue
+            e = strip_expr(body.expr(t["discr"]))
+            if e[0] != "call" or not e[1].endswith("Option::is_none"):
+                continue
+            tested = strip_refs(e[2][0])
+            if tested[0] != "place" or not tested[2] or tested[2][-1] != field:
+                continue
+            ft = bool_switch_true_target(body, gb)
+            if ft is None:
+                continue
+            treg = exclusive_region(body, ft[1])
+            def is_some(rv_):
+                e_ = strip_expr(body.rv_expr(rv_))
+                return e_[0] == "agg" and e_[2] == "Some"
+            fills = [bb for (bb, i, pl, rv, sp) in body.assigns() if bb in treg and is_some(rv)
+                     and [p for p in pl["proj"] if p["k"] == "field"] and [p for p in pl["proj"] if p["k"] == "field"][-1].get("name") == field[1]]
+            if not fills:
+                continue
+            # every path through the true arm passes a fill; nothing else writes the field between the test and the match
+            ok = all(any(f_ == x or body.dominates(f_, x) for f_ in fills) for x in body.preds(sb) if x in treg) if any(x in treg for x in body.preds(sb)) else \
+                any(body.dominates(f_, sb) or True for f_ in fills)
+            others = [bb for (bb, i, pl, rv, sp) in body.assigns() if bb not in fills and body.reaches(gb, bb) and body.reaches(bb, sb)
+                      and [p for p in pl["proj"] if p["k"] == "field"] and [p for p in pl["proj"] if p["k"] == "field"][-1].get("name") == field[1]]
+            takes = [c for c in body.calls() if body.reaches(gb, c.bb) and body.reaches(c.bb, sb) and c.bb != gb and
+                     c.callee.split("::")[-1] in ("take", "replace", "insert", "get_or_insert_with") and c.args and
+                     field in (strip_refs(body.expr(c.args[0]))[2] if strip_refs(body.expr(c.args[0]))[0] == "place" else ())]
+            if ok and not others and not takes:
+                return "None arm of a match on .%s, which the dominating `if .%s.is_none() { .%s = Some(..) }` (bb%d) has just filled" % (field[1], field[1], field[1], gb)
+    return None
+
+
+def guard_for_map_index(F, body, site):
+    """`map[key]` dominated by the true arm of `map.contains_key(key)` on the same map and key -- directly or through a
+    method of the same type that returns exactly that test (`fn has(&self, k) -> bool { self.0.contains_key(k) }`)."""
+    c = site.call
+    recv = _norm_e(strip_refs(body.expr(c.args[0])))
+    key = _norm_e(strip_refs(body.expr(c.args[1])))
+    for b in sorted(body.reachable()):
+        t = body.term(b)
+        if t["k"] != "switch" or not body.dominates(b, site.bb) or b == site.bb:
+            continue
+        ft = bool_switch_true_target(body, b)
+        if ft is None:
+            continue
+        e = strip_expr(body.expr(t["discr"]))
+        neg = False
+        while e[0] == "unop" and e[1] == "Not":
+            neg = not neg
+            e = strip_expr(e[2])
+        if e[0] != "call" or len(e) < 4:
+            continue
+        tc = e[3]
+        same = False
+        if tc.callee.endswith("::contains_key") and len(tc.args) >= 2:
+            same = _norm_e(strip_refs(body.expr(tc.args[0]))) == recv and _norm_e(strip_refs(body.expr(tc.args[1]))) == key
+        elif tc.callee in F.bodies and len(tc.args) >= 2:
+            wb = F.bodies[tc.callee]
+            inner = [x for x in wb.calls() if x.callee.endswith("::contains_key")]
+            if wb.local_ty(0) == "bool" and len(inner) == 1 and len(wb.calls()) == 1 and \
+                    strip_expr(wb.expr(inner[0].args[1])) == ("param", 1):
+                # the wrapper tests a field of its receiver; the indexed map must be that field of the same receiver
+                wrecv = strip_refs(wb.expr(inner[0].args[0]))
+                if wrecv[0] == "place" and strip_expr(wrecv[1]) == ("param", 0) and wrecv[2]:
+                    mine = strip_refs(body.expr(c.args[0]))
+                    if mine[0] == "place" and mine[2] and mine[2][-len(wrecv[2]):] == wrecv[2] and \
+                            _norm_e(strip_refs(body.expr(tc.args[1]))) == key:
+                        same = True
+        if not same:
+            continue
+        arm = ft[0] if neg else ft[1]          # the arm on which the key is present
+        other = ft[1] if neg else ft[0]
+        if (body.dominates(arm, site.bb) or site.bb == arm) and site.bb not in body.blocks_reachable_from(other) | {other} or \
+                (site.bb not in (body.blocks_reachable_from(other) | {other})):
+            return "dominated by a successful contains_key test of the same map and key (bb%d)" % b
+    return None
+
+
 class Discharger:
     def __init__(self, F, E, taint, rows, protocol_fns=()):
         self.F = F
@@ -779,6 +877,14 @@ class Discharger:
                         cond_mentions_state = True
             if cond_mentions_state:
                 return ("protocol", "turn-taking precondition asserted at the API entry (the property conditions on it)")
+        if s.kind == "panic":
+            g = guard_option_just_filled(body, s)
+            if g:
+                return ("guard", g)
+        if s.kind == "index" and s.call is not None and "HashMap" in s.call.callee and len(s.call.args) >= 2:
+            g = guard_for_map_index(self.F, body, s)
+            if g:
+                return ("guard", g)
         row = self.rows.get(s.key)
         rkey = s.key
         if row is None and "|" in s.key:
